@@ -775,6 +775,8 @@ package compose
 //@   props C16 C09
 //@   after call 3 append: assert[option_forwarded_to_a_nested_graph_is_undesignated] @C16 len(result) >= 1 && is(result[len(result) - 1], "Option") && len(unbox(result[len(result) - 1], "Option").paths) == 0
 //@   requires nodesOK(nodes) && optsOK(opts)
+//@   requires[options_are_values] forall(j int, i int :: 0 <= j && j < len(opts) && 0 <= i && i < len(opts[j].options) ==> opts[j].options[i] != nil)
+//@   note component options are struct values boxed by the WithXxxOption constructors (never a nil interface): reflect.TypeOf of one is a type
 //@   ensures[fresh] result1 == nil ==> optMapFresh(result0)
 //@   ensures[keys] result1 == nil ==> forall(k string :: in(k, result0) ==> in(k, nodes))
 //@   ensures[err_empty_path] (exists(j int, p int :: 0 <= j && j < len(opts) && 0 <= p && p < len(opts[j].paths) && len(opts[j].paths[p].path) == 0)) ==> result1 != nil
@@ -1810,6 +1812,22 @@ package compose
 //@   after call f.Type: ghost declared = result
 //@   ensures[declared_field_type_reported] @C15 err == nil ==> takenType == declared
 //@   ensures[no_value_on_error] @C15 err != nil ==> takenType == nil
+
+//@ func validateFieldMapping$1
+//@   props C15
+//@   captures frozen successorFieldType mapping
+//@   note the checker is stored in the handler table and runs long after the loop iteration that created it: it must test against the successor type of its own mapping
+//@   note run-time checker of a mapping whose source path crosses an interface-typed hole: the value found there may be anything, also nil
+//@   nopanic
+//@   ensures[value_passed_on] result1 == nil ==> result0 == a
+
+//@ func validateFieldMapping$3
+//@   props C15
+//@   captures frozen successorFieldType mapping
+//@   note the checker is stored in the handler table and runs long after the loop iteration that created it: it must test against the successor type of its own mapping
+//@   note run-time checker of a mapping whose source field is interface-typed
+//@   nopanic
+//@   ensures[value_passed_on] result1 == nil ==> result0 == a
 
 //@ func validateFieldMapping$5
 //@   props C15 C04
